@@ -27,7 +27,7 @@ type e2spec struct {
 var engine2Tiers = map[string]map[string]e2spec{
 	"C05": {"quick": {24, 8000, 150, 128}, "thorough": {96, 300000, 1500, 512}},
 	"C15": {"quick": {24, 4800, 150, 0}, "thorough": {96, 200000, 1500, 0}},
-	"C20": {"quick": {20, 6400, 200, 0}, "thorough": {64, 240000, 1800, 0}},
+	"C20": {"quick": {20, 8000, 200, 40}, "thorough": {64, 300000, 1800, 160}},
 }
 
 // e2Violation mirrors the fields of rsim.Violation the driver needs.
@@ -440,6 +440,8 @@ func report2(o opts, s *prep.Scratch, probe string, g genOut, m1 *merged, m2 *e2
 	switch o.prop {
 	case "C15":
 		cov["exhaustive_subspace"] = fmt.Sprintf("all %d histories of length 1..4 over an 11-operation alphabet {GetParam p1|p2|p3|p4, Get s1|s2|s3, OverrideParam p1:=value, p1:=param p3, p3:=provider, OverrideService s1} on the configuration {p1=%%todo(\"quota reached: 90%%%% of %%%%d (see %%%%s)\")%%, p2=%%p1%%-x, p3=7, p4=%%todo()%%, s1 todo, s2(@s1,%%p2%%), s3(%%p3%%)} were executed and compared with the model", st.Probes["exhaustive-histories-up-to-length-4"])
+	case "C20":
+		cov["enumerated_family_members"] = fmt.Sprintf("%d configurations of the small-graph family of C05 (bare values, decorators, tags, every scope assignment) are part of the batch", engine2Tiers["C20"][o.tier].nenum)
 	case "C05":
 		cov["exhaustive_subspace"] = fmt.Sprintf("%d configurations of the enumerated family (8 small shapes: argument chain, field+call fan-out, tag edge, decorator edge, two decorators on two tags in both orders, chain ending in a scoped todo placeholder, decorated bare value with typed getters; every third member also with a reference to an undefined service under --ignore-missing-services) x scope assignments {unset,shared,contextual,non_shared}^3 (512 in the thorough tier = the whole family) had their verdict compared with the legality model and, if accepted, were run under drawn histories", engine2Tiers["C05"][o.tier].nenum)
 	}
